@@ -1485,3 +1485,33 @@ M("C14-ordered-remaps-tie-by-address", "C14", "src/interrogate/interfaceMakerPyt
   "    std::ostringstream proto_a, proto_b;\n    a->write_orig_prototype(proto_a, 0);\n    b->write_orig_prototype(proto_b, 0);\n    return proto_a.str() < proto_b.str();\n  });\n  return result;",
   "    return a < b;\n  });\n  return result;",
   expect="R14.5")
+
+# ---------------------------------------------------------------- R07.14 (seed S6-C07)
+M("C07-oror-uses-unevaluated-second-operand", "C07", "src/cppparser/cppExpression.cxx",
+  "      if (r1.as_boolean()) {\n        return Result(true);\n      } else if (r2._type == RT_error) {\n        return r2;\n      } else {",
+  "      if (r1.as_boolean()) {\n        return Result(true);\n      } else {",
+  expect="R07.14|evaluate|OROR")
+M("C07-benign-andand-error-test-first", "C07", "src/cppparser/cppExpression.cxx",
+  "      if (!r1.as_boolean()) {\n        return Result(false);\n      } else if (r2._type == RT_error) {\n        return r2;\n      } else {\n        return Result(r2.as_boolean());\n      }",
+  "      if (!r1.as_boolean()) {\n        return Result(false);\n      }\n      if (r2._type != RT_error) {\n        return Result(r2.as_boolean());\n      }\n      return r2;",
+  benign=True)
+
+# ---------------------------------------------------------------- R12.8 (seed S6-C14)
+M("C12-cstring-read-unterminated", "C12", "src/interrogatedb/interrogate_datafile.cxx",
+  "  int p = 0;\n  while (p < length) {\n    readstr[p] = in.get();\n    p++;\n  }\n  readstr[p] = '\\0';\n",
+  "  in.read(readstr, length);\n",
+  expect="R12.8|idf_input_string(constchar*&)|buffer-terminated-before-handed-out")
+M("C12-benign-cstring-block-read-terminated", "C12", "src/interrogatedb/interrogate_datafile.cxx",
+  "  int p = 0;\n  while (p < length) {\n    readstr[p] = in.get();\n    p++;\n  }\n  readstr[p] = '\\0';\n",
+  "  in.read(readstr, length);\n  readstr[length] = '\\0';\n",
+  benign=True)
+
+# ---------------------------------------------------------------- R12.9 (seed S6-C12)
+M("C12-type-record-reused-across-list", "C12", "src/interrogatedb/interrogateDatabase.cxx",
+  "    while (num_types > 0) {\n      TypeIndex index;\n      InterrogateType type(def);\n",
+  "    InterrogateType type(def);\n    while (num_types > 0) {\n      TypeIndex index;\n",
+  expect="R12.9|InterrogateDatabase::read_new|type|fresh-per-record")
+M("C12-benign-index-declared-outside", "C12", "src/interrogatedb/interrogateDatabase.cxx",
+  "    while (num_types > 0) {\n      TypeIndex index;\n      InterrogateType type(def);\n",
+  "    TypeIndex index;\n    while (num_types > 0) {\n      InterrogateType type(def);\n",
+  benign=True)
